@@ -44,7 +44,7 @@ func ints(s string) []int {
 	}
 	var r []int
 	for _, f := range strings.Split(s, ",") {
-		f = strings.TrimRight(f, "wad")
+		f = strings.TrimRight(f, "wadu")
 		n, _ := strconv.Atoi(f)
 		r = append(r, n)
 	}
@@ -464,10 +464,15 @@ func (w *W) opSwap(op, ins, variant string) error {
 	var proofs cashu.Proofs
 	var idx []int
 	mutated := false
+	respelled := false
 	for _, f := range strings.Split(ins, ",") {
-		n, _ := strconv.Atoi(strings.TrimRight(f, "wad"))
+		n, _ := strconv.Atoi(strings.TrimRight(f, "wadu"))
 		p := w.Proofs[n].P
 		switch {
+		case strings.HasSuffix(f, "u"):
+			// the keyset id respelled in upper case: no keyset of the mint has that id (and no fee is known for it)
+			p.Id = strings.ToUpper(p.Id)
+			respelled = true
 		case strings.HasSuffix(f, "w"):
 			p.Witness = `{"signatures":["00"]}`
 		case strings.HasSuffix(f, "d"):
@@ -574,6 +579,9 @@ func (w *W) opSwap(op, ins, variant string) error {
 		if mutated {
 			w.viol("C04", "amount-field-mutation-accepted", "Swap(%s) accepted a proof with a changed amount field", ins)
 		}
+		if respelled {
+			w.viol("C04,C09,C02", "respelled-keyset-id-accepted", "Swap(%s,%s) accepted an input whose keyset id is spelled in upper case (no such keyset; no input fee charged for it)", ins, variant)
+		}
 		if outSum.Cmp(net) > 0 {
 			w.viol("C02,C09", "swap-outputs-exceed-inputs-minus-fees", "Swap(%s,%s): outputs %s > inputs %s - fee %s", ins, variant, outSum, inSum, fee)
 		}
@@ -593,7 +601,7 @@ func (w *W) opSwap(op, ins, variant string) error {
 		}
 		w.recordSigs(op, outs, sigs)
 	} else {
-		honest := !usedBefore && !dup && !mutated && variant == "exact" && !resubmitted
+		honest := !usedBefore && !dup && !mutated && !respelled && variant == "exact" && !resubmitted
 		for _, f := range strings.Split(ins, ",") {
 			if strings.HasSuffix(f, "w") || strings.HasSuffix(f, "d") {
 				_ = f // witness / DLEQ decoration on a plain proof is ignored by the mint: still honest
